@@ -3,6 +3,8 @@
 //
 //	dv replay-path -out res.ndjson sps_1.ndjson spv_1.ndjson ...   model -> code, C17
 //	dv record-path -schemas s.ndjson -n N -trace t.ndjson          code -> model, C17
+//	dv conc-path -out res.ndjson sps_1.ndjson spv_1.ndjson ...     shared schema, concurrent callers, C17
+//	dv conc-data -out res.ndjson dvs_1.ndjson dvv_1.ndjson ...     shared schema, concurrent callers, C18
 //	dv replay-data -out res.ndjson dvs_1.ndjson dvv_1.ndjson ...   model -> code, C18
 //	dv record-data -cases c.ndjson -mut K -trace t.ndjson          code -> model, C18
 //	dv yang shape.ndjson                                           print the rendered YANG
@@ -17,6 +19,7 @@ import (
 	"math/rand"
 	"os"
 	"strconv"
+	"sync"
 
 	"github.com/sdcio/yang-parser/schema"
 
@@ -42,6 +45,10 @@ func main() {
 		replayPath(os.Args[2:])
 	case "record-path":
 		recordPath(os.Args[2:])
+	case "conc-path":
+		concPath(os.Args[2:])
+	case "conc-data":
+		concData(os.Args[2:])
 	case "replay-data":
 		replayData(os.Args[2:])
 	case "record-data":
@@ -185,18 +192,7 @@ func replayPath(args []string) {
 					}
 					n++
 					got := dvm.ValidatePath(ms, m.p, m.inc)
-					good := got.Ok == m.want.Ok
-					ats := got.Ats(m.p)
-					if good && !got.Ok {
-						// the error must identify the spec's first offending element: its decoded path is the
-						// input's own prefix up to that element (and its info tag that element)
-						good = false
-						for _, a := range ats {
-							if a == m.want.At {
-								good = true
-							}
-						}
-					}
+					good, at := pathAgrees(m.p, m.want, got)
 					if !good {
 						k := fmt.Sprint(m.p, m.inc)
 						if reported[k] {
@@ -204,13 +200,99 @@ func replayPath(args []string) {
 						}
 						reported[k] = true
 						bad++
-						at := -1 // what the error identifies (diagnostic): its single reading, else -1
-						if len(ats) > 0 {
-							at = ats[0]
-						}
 						w.put(pathMism{sh.ID, m.p, m.inc, m.want, got, at, pass + 1})
 					}
 				}
+			}
+		}
+	}
+	w.close()
+	fmt.Printf("{\"evaluations\":%d,\"mismatches\":%d}\n", n, bad)
+}
+
+// pathAgrees: same verdict, and for a rejection the error identifies the spec's first offending
+// element (its decoded path is the input's own prefix up to that element, its info tag that element).
+func pathAgrees(p []string, want pv, got dvm.PathVerdict) (bool, int) {
+	ats := got.Ats(p)
+	at := -1
+	if len(ats) > 0 {
+		at = ats[0]
+	}
+	if got.Ok != want.Ok {
+		return false, at
+	}
+	if got.Ok {
+		return true, at
+	}
+	for _, a := range ats {
+		if a == want.At {
+			return true, at
+		}
+	}
+	return false, at
+}
+
+// concPath: one compiled ModelSet per shape is shared by G goroutines that validate DIFFERENT
+// paths (accepted and rejected, both modes, shuffled so that subtrees and depths mix) at the same
+// time, released together; every verdict and every error is judged like in replay-path.  Meant
+// to be built with the race detector.
+func concPath(args []string) {
+	fs := flag.NewFlagSet("conc-path", flag.ExitOnError)
+	out := fs.String("out", "conc.ndjson", "mismatches")
+	max := fs.Int("max", 4000, "calls per shape")
+	g := fs.Int("g", 16, "goroutines")
+	fs.Parse(args)
+	files := fs.Args()
+	w := create(*out)
+	r := rand.New(rand.NewSource(seed()))
+	n, bad := 0, 0
+	type item struct {
+		p    []string
+		inc  bool
+		want pv
+	}
+	for i := 0; i+1 < len(files); i += 2 {
+		shs := readShapes(files[i])
+		sh := shs[0]
+		ms, err := dvm.Compile(sh)
+		if err != nil {
+			die("shape %d does not compile: %v", sh.ID, err)
+		}
+		lines := [][]byte{} // parse only the drawn vectors (the race build is slow at everything)
+		eachLine(files[i+1], func(b []byte) { lines = append(lines, append([]byte{}, b...)) })
+		r.Shuffle(len(lines), func(a, b int) { lines[a], lines[b] = lines[b], lines[a] })
+		if len(lines) > *max/2 {
+			lines = lines[:*max/2]
+		}
+		items := []item{}
+		for _, b := range lines {
+			var v pathVec
+			if err := json.Unmarshal(b, &v); err != nil {
+				die("%s: %v", files[i+1], err)
+			}
+			items = append(items, item{v.P, false, v.S}, item{v.P, true, v.I})
+		}
+		r.Shuffle(len(items), func(a, b int) { items[a], items[b] = items[b], items[a] })
+		got := make([]dvm.PathVerdict, len(items))
+		var wg sync.WaitGroup
+		start := make(chan struct{})
+		for k := 0; k < *g; k++ {
+			wg.Add(1)
+			go func(k int) {
+				defer wg.Done()
+				<-start
+				for x := k; x < len(items); x += *g {
+					got[x] = dvm.ValidatePath(ms, items[x].p, items[x].inc)
+				}
+			}(k)
+		}
+		close(start)
+		wg.Wait()
+		for x, m := range items {
+			n++
+			if ok, at := pathAgrees(m.p, m.want, got[x]); !ok {
+				bad++
+				w.put(pathMism{sh.ID, m.p, m.inc, m.want, got[x], at, 0})
 			}
 		}
 	}
